@@ -192,7 +192,8 @@ def goAbsDiff {T : Type} [Codec T FX] [AbsDiffEq T FX] (a : Args) : String :=
         (arg a "eps").bind fx? with
   | some p, some q, some eps =>
     verdict a (.bool (AbsDiffEq.absDiffEq p q eps))
-      (Mon.approxAbs ((arg a "p").bind fxList? |>.getD []) ((arg a "q").bind fxList? |>.getD []) eps)
+      (fun impl => (Mon.defaultsOk (arg a "deps") (arg a "dmr")).orElse fun _ =>
+        Mon.approxAbs ((arg a "p").bind fxList? |>.getD []) ((arg a "q").bind fxList? |>.getD []) eps impl)
   | _, _, _ => "bad args"
 
 def goRelEq {T : Type} [Codec T FX] [RelativeEq T FX] (a : Args) : String :=
@@ -200,7 +201,8 @@ def goRelEq {T : Type} [Codec T FX] [RelativeEq T FX] (a : Args) : String :=
         (arg a "eps").bind fx?, (arg a "mr").bind fx? with
   | some p, some q, some eps, some mr =>
     verdict a (.bool (RelativeEq.relativeEq p q eps mr))
-      (Mon.approxRel ((arg a "p").bind fxList? |>.getD []) ((arg a "q").bind fxList? |>.getD []) eps mr)
+      (fun impl => (Mon.defaultsOk (arg a "deps") (arg a "dmr")).orElse fun _ =>
+        Mon.approxRel ((arg a "p").bind fxList? |>.getD []) ((arg a "q").bind fxList? |>.getD []) eps mr impl)
   | _, _, _, _ => "bad args"
 
 /-! piecewise-level operations -/
@@ -296,14 +298,16 @@ def goPwAbsDiff {T : Type} [Codec T FX] [AbsDiffEq T FX] [Nums T FX] (a : Args) 
   match (arg a "pw").bind (segs? (T := T)), (arg a "pw2").bind (segs? (T := T)), (arg a "eps").bind fx? with
   | some f, some g, some eps =>
     verdict a (.bool (AbsDiffEq.absDiffEq f g eps))
-      (Mon.approxAbsPw (f.map fun s => s.end :: Nums.nums s.poly) (g.map fun s => s.end :: Nums.nums s.poly) eps)
+      (fun impl => (Mon.defaultsOk (arg a "deps") (arg a "dmr")).orElse fun _ =>
+        Mon.approxAbsPw (f.map fun s => s.end :: Nums.nums s.poly) (g.map fun s => s.end :: Nums.nums s.poly) eps impl)
   | _, _, _ => "bad args"
 
 def goPwRelEq {T : Type} [Codec T FX] [AbsDiffEq T FX] [RelativeEq T FX] [Nums T FX] (a : Args) : String :=
   match (arg a "pw").bind (segs? (T := T)), (arg a "pw2").bind (segs? (T := T)), (arg a "eps").bind fx?, (arg a "mr").bind fx? with
   | some f, some g, some eps, some mr =>
     verdict a (.bool (RelativeEq.relativeEq f g eps mr))
-      (Mon.approxRelPw (f.map fun s => s.end :: Nums.nums s.poly) (g.map fun s => s.end :: Nums.nums s.poly) eps mr)
+      (fun impl => (Mon.defaultsOk (arg a "deps") (arg a "dmr")).orElse fun _ =>
+        Mon.approxRelPw (f.map fun s => s.end :: Nums.nums s.poly) (g.map fun s => s.end :: Nums.nums s.poly) eps mr impl)
   | _, _, _, _ => "bad args"
 
 def goMerge (a : Args) : String :=
